@@ -21,6 +21,7 @@ type Env struct {
 	lookup func(name string) (Val, bool)
 	inOld  bool
 	depth  int
+	loop   *loopInfo // the loop whose invariants are being evaluated, if any
 }
 
 func (fc *FnCtx) env(cur, old *State) *Env {
@@ -61,6 +62,7 @@ func (fc *FnCtx) evalBool(x ast.Expr, env *Env) Term {
 // envAtLoop resolves source variable names at a loop header.
 func (fc *FnCtx) envAtLoop(li *loopInfo, st *State, over map[*ssa.Phi]Val) *Env {
 	env := fc.env(st, fc.old)
+	env.loop = li
 	env.lookup = func(name string) (Val, bool) {
 		// innermost: phis of this header
 		for _, in := range li.header.Instrs {
@@ -69,6 +71,7 @@ func (fc *FnCtx) envAtLoop(li *loopInfo, st *State, over map[*ssa.Phi]Val) *Env 
 				break
 			}
 			if phi.Comment == name {
+				fc.lastRole = fmt.Sprintf("phi:loop%d", li.index)
 				if over != nil {
 					if v, ok := over[phi]; ok {
 						return v, true
@@ -227,7 +230,9 @@ func (fc *FnCtx) evalIdent(x *ast.Ident, env *Env) Val {
 		return v
 	}
 	if env.lookup != nil {
+		fc.lastRole = ""
 		if v, ok := env.lookup(x.Name); ok {
+			fc.noteLocal(x.Name, debugLocals(fc.root().fn)[x.Name], fc.lastRole)
 			return v
 		}
 	}
@@ -255,6 +260,14 @@ func (fc *FnCtx) evalIdent(x *ast.Ident, env *Env) Val {
 	}
 	if sf, ok := fc.eng.cs.Specs[x.Name]; ok && len(sf.Params) == 0 {
 		return fc.evalExpr(sf.Body, env)
+	}
+	if env.lookup != nil {
+		// a renamed local: bind to the only other local of the recorded type (rebind.go)
+		if n2, ok := fc.rebindLocal(x.Name, env.loop); ok {
+			if v, ok := env.lookup(n2); ok {
+				return v
+			}
+		}
 	}
 	panic(specErr("unknown identifier in spec: " + x.Name))
 }
@@ -606,7 +619,31 @@ func (fc *FnCtx) evalCall(x *ast.CallExpr, env *Env) Val {
 		n := env.with(id.Name, kv)
 		n.depth = env.depth + 1
 		in := fc.mapDom(env.state(), m, mt, bv)
-		return boolV(fmt.Sprintf("(forall ((%s %s)) (! %s :pattern (%s)))", bv, ks, implies(and(in, guard), fc.evalBool(x.Args[2], n)), in))
+		return boolV(fmt.Sprintf("(forall ((%s %s)) (! %s :pattern (%s)))", bv, ks, implies(and(in, guard), fc.evalBool(x.Args[2], n)), fc.mapDomSel(env.state(), m, mt, bv)))
+	case "visited":
+		// visited(m, k): inside a `for k, v := range m` loop, key k has already been yielded
+		m := arg(0)
+		mt, ok := m.T.Underlying().(*types.Map)
+		if !ok {
+			panic(specErr("visited: first argument must be a map"))
+		}
+		nIters := 0
+		for _, ii := range fc.iters {
+			if types.Identical(ii.mt, mt) {
+				nIters++
+			}
+		}
+		for itv, ii := range fc.iters {
+			// the iterator is identified by its map value, or by its map type when the
+			// function has a single range loop over a map of that type
+			if !(ii.m.S == m.S || (nIters == 1 && types.Identical(ii.mt, mt))) {
+				continue
+			}
+			ks := fc.keySort(mt)
+			r := fc.vc.region(env.state(), "iter<"+mapName(mt)+">.visited", 1, "(Array "+ks+" Bool)")
+			return boolV(sel(r, fc.val(itv).S, fc.keyTerm(arg(1), mt)))
+		}
+		panic(specErr("visited: no range loop over that map here"))
 	case "forall", "exists":
 		id := x.Args[0].(*ast.Ident)
 		bv := sym("q_" + id.Name + fmt.Sprintf("_%d", env.depth))
